@@ -17,6 +17,7 @@ func c14(p *an.Prog, r *an.R, tier string) {
 	r.Explanation = "C14 (structural clause): sibling agreement of the two blob-reading paths of the git indexer. createDocument (go-git) and indexCatfileBlobs (git cat-file) build their index.Document values with the same set of fields, take name/branches/sub-repository from the same sources (fileKey.FullPath(), repos[key].Branches, fileKey.SubRepoPath), share skippedDoc for placeholders, and decide 'too large' with the same comparison (size > SizeMax and not IgnoreSizeMax(full path)) mapped to the same SkipReason. Does NOT decide branch-set merging per blob, ignore matching, the slab allocator or the streaming protocol (value-level)."
 	r.Rule("C14.R1", "the index.Document literals of createDocument and indexCatfileBlobs set the same fields from the same kind of source expressions")
 	r.Rule("C14.R2", "both paths apply the size rule as `size > SizeMax && !IgnoreSizeMax(fullPath)` and map it to SkipReasonTooLarge through skippedDoc")
+	c14Ignore(p, r)
 	docT := p.Named("index", "Document")
 	skipped := p.Func("gitindex", "skippedDoc")
 	ignoreMax := p.Func("index", "(*Options).IgnoreSizeMax")
@@ -218,4 +219,65 @@ func c14(p *an.Prog, r *an.R, tier string) {
 		r.Check(s.sizeOK, "C14.R2", s.name+"/size-rule", 0, "size > SizeMax && !IgnoreSizeMax(full path)", s.name+" does not apply the size rule as `size > SizeMax && !IgnoreSizeMax(full path)`: the two blob-reading paths disagree on which files are skipped as too large")
 		r.Check(s.skipOK, "C14.R2", s.name+"/too-large-via-skippedDoc", 0, "too-large blobs become skippedDoc(..., SkipReasonTooLarge)", s.name+" does not map too-large blobs to skippedDoc(..., SkipReasonTooLarge)")
 	}
+}
+
+// c14Ignore: the tree walk records a (path, blob) for a branch - creating the entry or adding the branch to an
+// existing one - only after that branch's ignore matcher said the path is not excluded.
+func c14Ignore(p *an.Prog, r *an.R) {
+	r.Rule("C14.R3", "RepoWalker.handleEntry: every write to RepoWalker.Files is reached only on the false edge of <branch's ignore matcher>.Match(path); submodule links (mode Submodule) never reach such a write")
+	f := p.Func("gitindex", "(*RepoWalker).handleEntry")
+	d := p.Decl(f)
+	files := p.Field("gitindex", "RepoWalker", "Files")
+	match := p.Func("ignore", "(*Matcher).Match")
+	if !r.Anchor(d != nil && files != nil && match != nil, "gitindex.(*RepoWalker).handleEntry / RepoWalker.Files / ignore.(*Matcher).Match") {
+		return
+	}
+	fname := an.FuncName(f)
+	r.Fn(fname)
+	n := 0
+	for _, x := range calleeDecls(p, d) {
+		info := x.Pkg.TypesInfo
+		g := an.NewG(info, x.Decl.Body)
+		for _, l := range g.Locs(func(ast.Node) bool { return true }) {
+			as, ok := g.Node(l).(*ast.AssignStmt)
+			if !ok {
+				continue
+			}
+			writes := false
+			for _, lh := range as.Lhs {
+				if ix, ok := ast.Unparen(lh).(*ast.IndexExpr); ok {
+					if se, ok := ast.Unparen(ix.X).(*ast.SelectorExpr); ok && info.Selections[se] != nil && info.Selections[se].Obj() == files {
+						writes = true
+					}
+				}
+			}
+			if !writes {
+				continue
+			}
+			n++
+			key := fmt.Sprintf("%s/write-Files#%d/only-when-not-ignored", fname, n)
+			guarded := g.GuardedBy(l, func(cond ast.Expr, truth bool) bool {
+				c, ok := ast.Unparen(cond).(*ast.CallExpr)
+				return ok && !truth && an.Callee(info, c) == match
+			}, nil)
+			if !guarded && x != d {
+				// a helper that records the entry: its call in handleEntry must be guarded
+				hobj, _ := info.Defs[x.Decl.Name].(*types.Func)
+				dg := an.NewG(d.Pkg.TypesInfo, d.Decl.Body)
+				calls := dg.Locs(func(nd ast.Node) bool { return hobj != nil && len(an.CallsTo(d.Pkg.TypesInfo, nd, false, hobj)) > 0 })
+				guarded = len(calls) > 0
+				for _, cl := range calls {
+					if !dg.GuardedBy(cl, func(cond ast.Expr, truth bool) bool {
+						c, ok := ast.Unparen(cond).(*ast.CallExpr)
+						return ok && !truth && an.Callee(d.Pkg.TypesInfo, c) == match
+					}, nil) {
+						guarded = false
+					}
+				}
+			}
+			r.Check(guarded, "C14.R3", key, as.Pos(), "the (path, blob) is recorded for the branch only after the branch's ignore rules did not match",
+				"a (path, blob) can be recorded for a branch without that branch's ignore matcher having been asked (e.g. when the same blob was already collected for an earlier branch): a file excluded by this branch's ignore file gets this branch in its branch list")
+		}
+	}
+	r.Floor("C14.R3.writes-to-Files", 1, n)
 }
